@@ -531,6 +531,11 @@ func ensureStructSort(name string, t *types.Struct) *structSortInfo {
 	si := &structSortInfo{Name: name}
 	var accs []string
 	for i := 0; i < t.NumFields(); i++ {
+		if sortOfType(t.Field(i).Type()) == "" || sortOfType(t.Field(i).Type()) == structName(t.Field(i).Type()) {
+			return nil // not a flat struct of scalars: never an SMT datatype
+		}
+	}
+	for i := 0; i < t.NumFields(); i++ {
 		f := t.Field(i)
 		si.Fields = append(si.Fields, f.Name())
 		si.Sorts = append(si.Sorts, sortOfType(f.Type()))
@@ -633,8 +638,8 @@ func zeroValue(t types.Type) Value {
 		switch sortOfType(t) {
 		case SBool:
 			return False
-		case SBV8:
-			return BVLit(0, 8)
+		case SBV8, SBV16, SBV32, SBV64:
+			return bvlit(big.NewInt(0), widthOf(&Term{Sort: sortOfType(t)}))
 		case SInt:
 			return IntLit(0)
 		case SF64:
@@ -693,8 +698,8 @@ func (ex *Exec) constVal(c *ssa.Const) Value {
 		if !ok {
 			ex.unsupported("int constant %s", c.Value)
 		}
-		if b != nil && b.Kind() == types.Uint8 {
-			return bvlit(iv, 8)
+		if b != nil && isBVSort(sortOfType(t)) {
+			return bvlit(iv, widthOf(&Term{Sort: sortOfType(t)}))
 		}
 		return IntLitB(iv)
 	case constant.Float:
@@ -710,15 +715,15 @@ func (ex *Exec) constVal(c *ssa.Const) Value {
 var errNil = App("Nil", SErr)
 
 func init() {
-	registerCtor("mk-str", "str.arr", "str.off", "str.len")
+	registerCtor("mk-str", "s.arr", "s.off", "s.len")
 	registerCtor("Nil")
 	registerCtor("Sentinel", "sid")
 	registerCtor("PErr", "ptype", "pabv")
 }
 
-func strArr(s *Term) *Term { return Acc("str.arr", SArrB, s) }
-func strOff(s *Term) *Term { return Acc("str.off", SInt, s) }
-func strLen(s *Term) *Term { return Acc("str.len", SInt, s) }
+func strArr(s *Term) *Term { return Acc("s.arr", SArrB, s) }
+func strOff(s *Term) *Term { return Acc("s.off", SInt, s) }
+func strLen(s *Term) *Term { return Acc("s.len", SInt, s) }
 func mkStr(arr, off, ln *Term) *Term {
 	return App("mk-str", SStr, arr, off, ln)
 }
@@ -995,6 +1000,8 @@ func (ex *Exec) execInstr(ins ssa.Instruction, pc *Term, st *State) {
 		ex.env[i] = mapCond(ex.val(i.Tuple), func(v Value) Value { return v.(*TupleV).Elems[i.Index] })
 	case *ssa.ChangeType:
 		ex.env[i] = ex.val(i.X)
+	case *ssa.ChangeInterface:
+		ex.env[i] = ex.val(i.X)
 	case *ssa.Convert:
 		ex.env[i] = ex.convert(i, pc)
 	case *ssa.MakeInterface:
@@ -1051,13 +1058,13 @@ func (ex *Exec) unop(i *ssa.UnOp, pc *Term, st *State) Value {
 			return App("fp.neg", SF64, t)
 		case SInt:
 			return ISub(IntLit(0), t)
-		case SBV8:
-			return App("bvneg", SBV8, t)
+		case SBV8, SBV16, SBV32, SBV64:
+			return App("bvneg", t.Sort, t)
 		}
 	case token.XOR:
 		t := ex.term(x)
-		if t.Sort == SBV8 {
-			return App("bvnot", SBV8, t)
+		if isBVSort(t.Sort) {
+			return App("bvnot", t.Sort, t)
 		}
 	}
 	ex.unsupported("unary %s", i)
@@ -1095,12 +1102,12 @@ func (ex *Exec) binop(i *ssa.BinOp, pc *Term) Value {
 		case token.NEQ:
 			return Not(strEq(x, y))
 		}
-	case SBV8:
-		if y.Sort == SInt { // shift count of another integer type
-			if y.Op != "int" {
+	case SBV8, SBV16, SBV32, SBV64:
+		if y.Sort != x.Sort { // shift count of another integer type
+			if y.Op != "int" && y.Op != "bv" {
 				ex.unsupported("symbolic shift count")
 			}
-			y = bvlit(y.IV, 8)
+			y = bvlit(y.IV, widthOf(x))
 		}
 		switch i.Op {
 		case token.AND:
@@ -1110,7 +1117,7 @@ func (ex *Exec) binop(i *ssa.BinOp, pc *Term) Value {
 		case token.XOR:
 			return BVBin("bvxor", x, y)
 		case token.AND_NOT:
-			return BVBin("bvand", x, App("bvnot", SBV8, y))
+			return BVBin("bvand", x, App("bvnot", x.Sort, y))
 		case token.SHL:
 			return BVBin("bvshl", x, y)
 		case token.SHR:
@@ -1122,10 +1129,10 @@ func (ex *Exec) binop(i *ssa.BinOp, pc *Term) Value {
 		case token.MUL:
 			return BVBin("bvmul", x, y)
 		case token.QUO:
-			ex.vc.Oblige(ex.obName("safety", "div_by_zero"), "safety", Implies(pc, Not(Eq(y, BVLit(0, 8)))))
+			ex.vc.Oblige(ex.obName("safety", "div_by_zero"), "safety", Implies(pc, Not(Eq(y, bvlit(big.NewInt(0), widthOf(x))))))
 			return BVBin("bvudiv", x, y)
 		case token.REM:
-			ex.vc.Oblige(ex.obName("safety", "div_by_zero"), "safety", Implies(pc, Not(Eq(y, BVLit(0, 8)))))
+			ex.vc.Oblige(ex.obName("safety", "div_by_zero"), "safety", Implies(pc, Not(Eq(y, bvlit(big.NewInt(0), widthOf(x))))))
 			return BVBin("bvurem", x, y)
 		case token.EQL:
 			return Eq(x, y)
@@ -1312,12 +1319,22 @@ func (ex *Exec) convert(i *ssa.Convert, pc *Term) Value {
 	switch {
 	case fs == ts:
 		return t
-	case fs == SInt && ts == SBV8:
-		if t.Op == "int" {
-			return bvlit(t.IV, 8)
+	case isBVSort(fs) && isBVSort(ts):
+		wf, wt := widthOf(&Term{Sort: fs}), widthOf(&Term{Sort: ts})
+		if t.Op == "bv" {
+			return bvlit(t.IV, wt)
 		}
-		return App("int2bv8", SBV8, t)
-	case fs == SBV8 && ts == SInt:
+		if wt > wf {
+			return App(fmt.Sprintf("(_ zero_extend %d)", wt-wf), ts, t)
+		}
+		return App(fmt.Sprintf("(_ extract %d 0)", wt-1), ts, t)
+	case fs == SInt && isBVSort(ts):
+		w := widthOf(&Term{Sort: ts})
+		if t.Op == "int" {
+			return bvlit(t.IV, w)
+		}
+		return App(fmt.Sprintf("(_ int2bv %d)", w), ts, t)
+	case isBVSort(fs) && ts == SInt:
 		if t.Op == "bv" {
 			return IntLitB(t.IV)
 		}
